@@ -32,8 +32,14 @@ func genModestWeight() *rapid.Generator[float64] {
 func genTraitParams(t *rapid.T) []float64 {
 	p := make([]float64, neat.NumTraitParams)
 	kind := rapid.IntRange(0, 2).Draw(t, "trait kind")
+	if rapid.IntRange(0, 11).Draw(t, "extreme trait parameters") == 5 {
+		kind = 3
+	}
 	for i := range p {
 		switch kind {
+		case 3: // both ends of the float64 range
+			p[i] = rapid.SampledFrom([]float64{math.MaxFloat64, -math.MaxFloat64, 1.2e308, -9.1e307, 8.9e307, 5e-324, -5e-324, 2.2250738585072014e-308,
+				math.Copysign(0, -1), 0, 1, 1e300}).Draw(t, "tp")
 		case 0:
 			p[i] = rapid.Float64Range(0, 1).Draw(t, "tp")
 		case 1:
